@@ -141,3 +141,25 @@ def PROTO5(name, entry, desc, **kw):
 PROTO5('vtmf_nizk', 'h_t_nizk', 'key-share NIZK: one edited value => refused unless equivalent response; refused contribution leaves h unchanged')
 PROTO5('vtmf_cp', 'h_t_cp', 'CP proof: one edited transcript value or public input => refused unless equivalent response')
 PROTO5('vtmf_masking', 'h_t_masking', 'masking proof: one edited transcript value or card component => refused unless equivalent response')
+
+# ------------------------------------------------------------------ C08 (common key)
+def PROTO8(name, entry, desc, symbolic, **kw):
+    PROTO('C08', name, 'C08_keygen.cc', entry, desc, symbolic, **kw)
+    HARNESSES[-1]['defines'] = dict(HARNESSES[-1]['defines'], H_COLLISION_FREE=1, H_HMAX=10)
+    HARNESSES[-1]['assumptions'] = PROTO_ASSUME + ['hash is collision-free on the calls made (distinct inputs get distinct digests)']
+def XBC(groups): return [dict(g, H_XB=xb, H_XC=xc, H_FP_IDENTITY=1, MINISTL_MAP_MAX=3) for g in groups for xb in range(g['H_Q']) for xc in range(g['H_Q']) if xb != xc]
+PROTO8('order', 'h_order', 'three players: common key equal for both processing orders and == product of all public keys', 'secret key of A, all proof coins, NIZK digests, the two processing orders; secret keys of B and C enumerated by slices', timeout=3000, in_tiers=('thorough',), groups=XBC(GROUPS_Q[:1]), groupsT=XBC(GROUPS_Q))
+PROTO8('remove', 'h_remove', 'add/add/remove restores the previous key; unknown removal refused', 'key of A, coins, NIZK digests; keys of B != C enumerated by slices', timeout=3000, memgb=14, in_tiers=('thorough',), groups=XBC(GROUPS_Q[:1]), groupsT=XBC(GROUPS_Q))
+PROTO8('outgroup', 'h_outgroup', 'key = u*g^x with u outside G plus a proof honestly computed for it: refused, key unchanged', 'x, u, coins, digests')
+PROTO8('bad', 'h_bad', 'arbitrary / truncated contribution: accepted only if complete and key in G; refused => key and count unchanged', 'key value in [-2,2p), c, r in [-q,2q), number of tokens present')
+
+# ------------------------------------------------------------------ C06 (parameter validation == specification)
+def C06(name, entry, tu, desc):
+    mk = lambda W: [dict(H_P=p, H_W=W, VF_BITS=2 * W + 4) for p in range(0, 1 << W)]
+    H(id='C06_' + name, property='C06', src='C06_groups.cc', entry=entry, tu=tu, unwind=24, replace=PROTO_REPLACE,
+      defines={'H_MAXDRAWS': 4, 'MINISTL_STREAM_CAP': 256, 'H_DBITS': 4, 'H_HMAX': 5, 'MINISTL_STRING_MINCAP': 63}, config={'TMCG_MAX_FPOWM_T': 8},
+      desc=desc, symbolic='q, k / h, g in [-1, 2^W+2), canonical flag, element a in [-2, p+3), hash oracle outputs', assumptions=PROTO_ASSUME,
+      bounds='every p in [0, 2^W), W=5 (quick) / 6 (thorough), one query per p; F_size=3, G_size=2; at most 4 generator candidates',
+      slices=mk(5), backend='kissat', memgb=6, tiers={'thorough': {'slices': mk(6), 'timeout': 3000}})
+C06('vtmf', 'h_vtmf_group', ['BarnettSmartVTMF_dlog.cc', 'mpz_spowm.cc', 'mpz_sprime.cc'], 'BarnettSmartVTMF_dlog::CheckGroup/CheckElement == specification (random and canonical generator)')
+C06('pvss', 'h_pvss_group', ['PedersenVSS.cc', 'mpz_spowm.cc', 'mpz_sprime.cc'], 'PedersenVSS::CheckGroup/CheckElement == specification (verifiable generator, h != g)')
